@@ -4,6 +4,7 @@
 package main
 
 import (
+	"strconv"
 	"fmt"
 	"net/url"
 	"reflect"
@@ -46,6 +47,7 @@ func ruleMenu() []ruleInst {
 	}
 	for _, r := range []string{"required", "in=(a/1/中)", "in=(1/2/1.5)", "include=(a)", "include=(1/ )", "phone", "email", "idcard", "ip", "ipv4", "ipv6", "year", "year2month", "date", "datetime",
 		"year2month=/", "date=/", "int", "ints", "ints=-", "float", "re='^a+$'", "re='^\\d$'", "unique", "json", "prefix=a", "suffix=1", "prefix=中", "file", "dir",
+		"phone|", "int|", "required|", "to=1~3|", "in=(a/b)|", "in=(PAID/REFUND)", "include=(PAI)", "prefix=P", "in=(1/2/PAID)",
 		"ints= ", "prefix=a ", "suffix= a", "suffix=. ", "include=( )", "in=(a / a)", "prefix= ",
 		"in=(1+1/100%/a%41)", "include=(+)", "include=(%4)", "prefix=+", "suffix=%", "re='^\\d\\+\\d$'"} {
 		add(r)
@@ -58,8 +60,28 @@ type val struct {
 	v    reflect.Value
 }
 
+// defined scalar types with a String method (what protoc-gen-go emits for enums): the value under a rule is the
+// value, whichever entry point carries it
+type Status int32
+
+func (s Status) String() string { return map[Status]string{1: "PAID", 2: "REFUND"}[s] }
+
+type Level uint8
+
+func (l Level) String() string { return "L" + strconv.Itoa(int(l)) }
+
+type Ratio float64
+
+func (r Ratio) String() string { return "ratio" }
+
+type Nick string
+
+func (n Nick) String() string { return "nick:" + string(n) }
+
 func valueMenu() []val {
 	var out []val
+	out = append(out, val{"Status(1)", rv(Status(1))}, val{"Status(2)", rv(Status(2))}, val{"Status(3)", rv(Status(3))}, val{"Level(1)", rv(Level(1))}, val{"Level(200)", rv(Level(200))},
+		val{"Ratio(1.5)", rv(Ratio(1.5))}, val{"Ratio(2)", rv(Ratio(2))}, val{`Nick("PAID")`, rv(Nick("PAID"))}, val{`Nick("a")`, rv(Nick("a"))}, val{`Nick("13800138000")`, rv(Nick("13800138000"))})
 	for i := -6; i <= 9; i++ {
 		out = append(out,
 			val{fmt.Sprintf("int(%d)", i), rv(int(i))}, val{fmt.Sprintf("int8(%d)", i), rv(int8(i))}, val{fmt.Sprintf("int64(%d)", i), rv(int64(i))},
@@ -200,7 +222,7 @@ func run(c *runner.Ctx) {
 	}
 	// the bare rule text as well (default wording; the rule text is then the last thing in a tag / rule string)
 	for _, r := range rules {
-		if strings.HasSuffix(r.text, " ") || strings.Contains(r.text, "= ") || r.name == "ints" || r.name == "in" || r.name == "prefix" || r.name == "suffix" || r.name == "include" {
+		if strings.HasSuffix(r.text, "|") || strings.Contains(r.text, "PAI") || strings.HasSuffix(r.text, " ") || strings.Contains(r.text, "= ") || r.name == "ints" || r.name == "in" || r.name == "prefix" || r.name == "suffix" || r.name == "include" {
 			lists = append(lists, rlist{r.text, nil, r.name + "-bare"})
 		}
 	}
